@@ -181,6 +181,8 @@ def expected_content(spec, name, path, read_sha, sd=None):
     reads = [(p, read_sha(p)) for p in sd["inp"] + sd.get("amend_inp", [])]
     env = specgen.ENV_NAMES and spec.get("env", {})
     envs = [(n, env.get(n)) for n in sd.get("env", []) + sd.get("amend_env", [])]
+    for n, v in sorted((sd.get("env_overrides") or {}).items()):
+        envs.append((n, v))
     if sd.get("variant"):
         envs.append(("VERIF_VARIANT_" + str(sd["variant"]), None))
     return Session.output_content(label, reads, envs, path)
@@ -302,8 +304,12 @@ def project_graph(tables, strict=False):
         creator = key(n["creator"]) if n["creator"] is not None else None
         if i in steps:
             s = steps[i]
+            # The deferral note of a step that nothing needs is a leftover of an earlier run
+            # (it is cleared as soon as one of the step's inputs changes state); it says nothing
+            # about what the current plans declare, so it is not compared unless `strict`.
+            deferred = bool(s["deferred"]) and (strict or s["_implied_need"] != Need.OPTIONAL.value)
             fact = ["step", n["label"], creator, StepState(s["state"]).name,
-                    Need(s["need"]).name, Need(s["_implied_need"]).name, bool(s["deferred"])]
+                    Need(s["need"]).name, Need(s["_implied_need"]).name, deferred]
             if succeeded(i) or strict:
                 h = hashes.get(i)
                 if h is not None:
